@@ -125,3 +125,58 @@ func numPoolLiteralOnly(c *Ctx) {
 	}
 	c.atLeast("values interned in the pool of number constants", n, 1)
 }
+
+// compilerBuildsNoOperatorNodes (part of R-ARITH, C01): the compiler compiles the tree the parser built. The only syntax
+// nodes it makes itself are operand leaves (a number, a string, a field of a literal index - default arguments). A
+// node with operands of its own made in the compiler (an AugAssignExpr built from `x = x + e`, a BinaryExpr with
+// swapped sides) is a rewrite of the program, and the rewritten form's evaluation order is not the source's.
+func compilerBuildsNoOperatorNodes(c *Ctx) {
+	leaves := map[string]bool{"NumExpr": true, "StrExpr": true, "FieldExpr": true, "VarExpr": true, "RegExpr": true}
+	n := 0
+	for _, fn := range c.srcFuncs("internal/compiler") {
+		fn := fn
+		k := 0
+		allInstrs(fn, func(in ssa.Instruction) {
+			al, ok := in.(*ssa.Alloc)
+			if !ok {
+				return
+			}
+			nm := named(deref(al.Type()))
+			if nm == nil || nm.Obj().Pkg() == nil || nm.Obj().Pkg().Path() != modPath+"/internal/ast" {
+				return
+			}
+			if _, isStruct := nm.Underlying().(*types.Struct); !isStruct {
+				return
+			}
+			// a composite literal: the allocation is followed by field stores (a plain `var x ast.T` of a value type that is
+			// only read into is not a construction of a node handed to the compiler)
+			built := false
+			if refs := al.Referrers(); refs != nil {
+				for _, r := range *refs {
+					if fa, ok := r.(*ssa.FieldAddr); ok && fa.Referrers() != nil {
+						for _, r2 := range *fa.Referrers() {
+							if _, isSt := r2.(*ssa.Store); isSt {
+								built = true
+							}
+						}
+					}
+					if _, isMI := r.(*ssa.MakeInterface); isMI {
+						built = true
+					}
+				}
+			}
+			if !built {
+				return
+			}
+			n++
+			k++
+			key := "rewrite:" + fnKey(fn) + ":" + nm.Obj().Name()
+			if k > 1 {
+				key += "#" + itoa(int64(k))
+			}
+			c.check(leaves[nm.Obj().Name()], key, in.Pos(), "the compiler builds only operand leaves of its own",
+				fnKey(fn)+" builds a syntax node of type "+nm.Obj().Name()+" and compiles it in place of what the parser produced: the rewritten form has its own evaluation order (the augmented-assignment opcodes read the variable after the right-hand side, a plain assignment before), so `x = x + f()` with an f that assigns x no longer does what the tree says")
+		})
+	}
+	c.atLeast("syntax nodes built by the compiler", n, 2)
+}
